@@ -20,8 +20,8 @@ def _chars(L, first_nb=True):
 def gen(quick: bool) -> str:
     out = []
     Ls = [1, 2, 3] if quick else [1, 2, 3, 4]
-    for ns in (10, 828):
-        for L in Ls:
+    for ns in (10, 828, 4):
+        for L in (Ls if ns != 4 else Ls[:2]):
             pre = f"    pre: len(t) == {L}\n    pre: {_chars(L)}\n"
             variants = {
                 "bare": ("t", "t"),  # stored without prefix, looked up without prefix
@@ -29,6 +29,7 @@ def gen(quick: bool) -> str:
                 "stored_prefixed": ("PREFIX[NS] + t", "t"),
                 "lowerprefix": ("t", "LOWER[NS] + t"),
                 "alias": ("t", "ALIAS[NS].lower() + t"),
+                "canonical": ("t", "CANON[NS] + t"),  # the canonical (English) namespace name
                 "underscore": ('t.replace("_", " ")', 't.replace(" ", "_")'),
                 "lcfirst": ("_up(t[0]) + t[1:]", "_lo(t[0]) + t[1:]"),
             }
@@ -144,7 +145,7 @@ def run(rep: C.Report) -> None:
     rep.trusted += ["CrossHair 0.0.110", "z3", "sqlite3 (real, for the history conditions)"]
     src = open(H).read() + "\n" + gen(quick)
     xh.check_harness(rep, H, {
-            "^sp_": dict(name="Ob1 add_page key is among the titles get_page queries, for every spelling variant; later-letter case is significant", functions=["core.py:Wtp.add_page", "core.py:Wtp.get_page"], bounds=f"titles of 1..{3 if quick else 4} symbolic characters over {{a,A,_,space,b}}; namespaces Template, Module, Main"),
+            "^sp_": dict(name="Ob1 add_page key is among the titles get_page queries, for every spelling variant; later-letter case is significant", functions=["core.py:Wtp.add_page", "core.py:Wtp.get_page"], bounds=f"titles of 1..{3 if quick else 4} symbolic characters over {{a,A,_,space,b}}; namespaces Template, Module, Project (local name Wiktionary), Main"),
         }, timeout=90 if quick else 600, src=src, batch=4, twins=False, select="^sp_")
     # the history conditions only case-split in the solver and run the operations untraced (see harness): ~25 ms per history
     xh.check_harness(rep, H, {
